@@ -420,8 +420,24 @@ def _k1(ctx: Context) -> None:
     for n in walk_own(init.node):
         if isinstance(n, ast.Assign) and len(n.targets) == 1 and isinstance(n.targets[0], ast.Attribute) and isinstance(n.targets[0].value, ast.Name) and n.targets[0].value.id == "self":
             v = n.value
-            if isinstance(v, ast.Call) and isinstance(v.func, ast.Attribute) and v.func.attr == "_get_configuration" and len(v.args) >= 2:
-                kw = ctx.const(init, v.args[1], None)
+            kwname = init.node.args.kwarg.arg if init.node.args.kwarg is not None else None
+            # `<look-up>(.., kwargs, "key", ..)`: a call of a package function that receives the keyword dict and ONE constant
+            # string, and returns `kwargs[key]` for a key that is present (method or plain function, whatever its name)
+            if isinstance(v, ast.Call) and kwname and not v.keywords and any(isinstance(a_, ast.Name) and a_.id == kwname for a_ in v.args):
+                strs = [(j, ctx.const(init, a_, None)) for j, a_ in enumerate(v.args) if isinstance(ctx.const(init, a_, None), str) and isinstance(a_, ast.Constant)]
+                callees = [q_ for q_ in ctx.callee_names(init, v) if q_ in ctx.prog.functions]
+                if len(strs) == 1 and len(callees) == 1:
+                    cal = ctx.prog.functions[callees[0]]
+                    off = 1 if (cal.cls is not None and isinstance(v.func, ast.Attribute)) else 0
+                    kpos = next(j for j, a_ in enumerate(v.args) if isinstance(a_, ast.Name) and a_.id == kwname)
+                    if len(cal.pos_params) > max(kpos, strs[0][0]) + off:
+                        pk, ps = cal.pos_params[kpos + off], cal.pos_params[strs[0][0] + off]
+                        ccfg_ = ctx.cfg(cal.qualname)
+                        want_ = ("sub", ("param", pk), ("param", ps))
+                        if any(r_.kind == "return" and r_.exprs and r_.exprs[0] is not None and strip_sites(T.of(ccfg_, r_, r_.exprs[0])) == want_ for r_ in ccfg_.nodes):
+                            I[strs[0][1]] = n.targets[0].attr
+            elif isinstance(v, ast.Call) and isinstance(v.func, ast.Attribute) and v.func.attr in ("get", "pop") and kwname and _u(v.func.value) == kwname and v.args:
+                kw = ctx.const(init, v.args[0], None)
                 if isinstance(kw, str):
                     I[kw] = n.targets[0].attr
             else:
